@@ -5,7 +5,9 @@ import Poulpy.Model.Ntt120
 Model driver for `ntt120` — same request format as `pvh ntt120` (harness/src/cmd_ntt120.rs):
 `id ntt120 <sub-op> k=v …` → `id <result>`; integers decimal, `,` inside an element, `|` between
 elements, `panic:<class>` for the panics the model knows about.  `be=ref|avx` requests (the `Ntt*`
-trait implementations, fixed to Primes30) are answered by the same model functions as `p=30`.
+trait implementations, fixed to Primes30) are answered by the same model functions as `p=30`,
+except the lazy add / sub / negate family, where `be=avx` runs the AVX2 kernels' single conditional
+subtraction (`lazyReduceAvx`) instead of `% q_s`.
 -/
 
 namespace Drv.Ntt120
@@ -52,6 +54,9 @@ def handle (ts : List String) : String :=
     let P := primeSet args
     let x := kvNats args "x"
     let y := kvNats args "y"
+    let xa := x.toArray
+    let ya := y.toArray
+    let avx := kv args "be" == some "avx"
     let xi := kvInts args "x"
     let ell := kvNat args "ell"
     match op with
@@ -66,15 +71,15 @@ def handle (ts : List String) : String :=
       | none => showChunks (r.map (fun o => match o with | .ok v => v | _ => []))
     | "bto" => showIntList ((chunk 4 x).map (bToZnx128 P))
     | "consume" => showIntList ((chunk 4 x).map (compactCrt P))
-    | "bbc" => showOut showNats (vecMat1ColProductBbc (bbcMeta P) ell x y)
-    | "bbcx2" => showOut showNats (vecMat1ColProductX2Bbc (bbcMeta P) ell x y)
-    | "bbc2c" => showOut showNats (vecMat2ColsProductX2Bbc (bbcMeta P) ell x y)
-    | "bbb" => showOut showNats (vecMat1ColProductBbb (bbbMeta P) ell x y)
-    | "baa" => showOut showNats (vecMat1ColProductBaa (baaMeta P) ell x y)
-    | "add" | "addas" => if y.length < x.length then "panic:bounds" else showNats (zipK P addBbbK x y)
-    | "sub" | "subas" => if y.length < x.length then "panic:bounds" else showNats (zipK P subBbbK x y)
-    | "subneg" => if y.length < x.length then "panic:bounds" else showNats (zipK P (fun q a b => subBbbK q b a) x y)
-    | "neg" | "negas" => showNats (mapK P negBK x)
+    | "bbc" => showOut showNats (vecMat1ColProductBbc (bbcMeta P) ell xa ya)
+    | "bbcx2" => showOut showNats (vecMat1ColProductX2Bbc (bbcMeta P) ell xa ya)
+    | "bbc2c" => showOut showNats (vecMat2ColsProductX2Bbc (bbcMeta P) ell xa ya)
+    | "bbb" => showOut showNats (vecMat1ColProductBbb (bbbMeta P) ell xa ya)
+    | "baa" => showOut showNats (vecMat1ColProductBaa (baaMeta P) ell xa ya)
+    | "add" | "addas" => if y.length < x.length then "panic:bounds" else showNats (zipK P (if avx then addBbbAvxK else addBbbK) x y)
+    | "sub" | "subas" => if y.length < x.length then "panic:bounds" else showNats (zipK P (if avx then subBbbAvxK else subBbbK) x y)
+    | "subneg" => if y.length < x.length then "panic:bounds" else showNats (zipK P (fun q a b => (if avx then subBbbAvxK else subBbbK) q b a) x y)
+    | "neg" | "negas" => showNats (mapK P (if avx then negBAvxK else negBK) x)
     | "addccc" => if y.length < x.length then "panic:bounds" else showNats (zipKc P addCccK x y)
     | "spm" => toString (splitPrecompmul (kvNat args "inp") (kvNat args "po") (kvNat args "h") (kvNat args "mask"))
     | "red" => toString (modqRed (kvNat args "x") (kvNat args "h") (kvNat args "mask") (kvNat args "cst"))
